@@ -216,6 +216,12 @@ impl World {
         };
         let mut ret = "none".to_string();
         let mut panic = false;
+        // the requesting protocol's inbox is full while this stimulus is handled (burst of events):
+        // whatever the manager owes that protocol must still arrive once it drains
+        let clog = s.get("clog").and_then(|c| c.as_bool()).unwrap_or(false);
+        if clog {
+            stim["filler"] = json!(self.h.fill_protocol_inbox(0));
+        }
         match a {
             "dial" | "probe" => {
                 let p = self.peer(&sp);
@@ -406,27 +412,50 @@ impl World {
             }
             other => panic!("unknown stimulus {other}"),
         }
-        let (calls, events) = match catch(|| self.drain(&sp)) {
-            Ok(x) => x,
-            Err(_) => {
-                panic = true;
-                (vec![], vec![])
-            }
-        };
-        let mut events = events;
-        let mut proto: Vec<Vec<String>> = vec![];
-        for i in 0..self.h.protocols() {
-            let evs = self.h.protocol_events(i);
-            if i == 0 {
-                // what the protocol that issues `hdial` sees
-                for e in &evs {
-                    if let litep2p::verif::mgr::ProtoEvent::DialFailure { peer, addresses } = e {
-                        events.push(json!({"k": "proto_dial_failure", "peer": self.pname(peer), "cid": -1,
-                            "addrs": addresses.iter().map(|a| self.aname(a)).collect::<Vec<_>>()}));
+        let (mut calls, mut events) = (vec![], vec![]);
+        let mut proto: Vec<Vec<String>> = vec![vec![]; self.h.protocols()];
+        // the manager may be suspended on a full protocol inbox: poll it, let the protocols drain,
+        // poll again - until nothing new shows up
+        if clog {
+            // a manager call that suspends on the full inbox must survive until the protocol drained
+            self.h.keep_suspended(true);
+        }
+        for round in 0..4 {
+            let (c, e) = match catch(|| self.drain(&sp)) {
+                Ok(x) => x,
+                Err(_) => {
+                    panic = true;
+                    (vec![], vec![])
+                }
+            };
+            let progressed = !c.is_empty() || !e.is_empty();
+            calls.extend(c);
+            events.extend(e);
+            let mut got = false;
+            for i in 0..self.h.protocols() {
+                let evs = self.h.protocol_events(i);
+                got |= !evs.is_empty();
+                if i == 0 {
+                    // what the protocol that issues `hdial` sees
+                    for e in &evs {
+                        if let litep2p::verif::mgr::ProtoEvent::DialFailure { peer, addresses } = e {
+                            events.push(json!({"k": "proto_dial_failure", "peer": self.pname(peer), "cid": -1,
+                                "addrs": addresses.iter().map(|a| self.aname(a)).collect::<Vec<_>>()}));
+                        }
                     }
                 }
+                proto[i].extend(evs.iter().map(|e| format!("{e:?}").chars().take(60).collect::<String>()));
             }
-            proto.push(evs.iter().map(|e| format!("{e:?}").chars().take(60).collect()).collect());
+            if round > 0 && !progressed && !got {
+                break;
+            }
+            if !clog && round == 0 {
+                break;
+            }
+        }
+        if clog {
+            stim["suspended_at_end"] = json!(self.h.suspended() && self.h.queued() > 0);
+            self.h.keep_suspended(false);
         }
         let (li, lo) = self.h.limits();
         let mut pend: Vec<usize> = self.h.pending_connections().iter().map(|(c, _)| *c).collect();
@@ -591,7 +620,14 @@ fn run_behaviour(b: usize, max_in: i64, max_out: i64, two: bool, stims: &[Value]
     let mut w = World::new_tr(max_in, max_out, two);
     let mut out = vec![json!({"e": "reset", "b": b, "src": src, "maxIn": max_in, "maxOut": max_out, "two": two}).to_string()];
     let mut drift = false;
+    // a seeded twelfth of the transport outcomes is delivered while the requesting protocol's inbox is full
+    let mut crng = StdRng::seed_from_u64(b as u64 ^ 0x5eed);
     for s in stims {
+        let mut s = s.clone();
+        if matches!(s["a"].as_str(), Some("open_fail" | "dial_fail" | "established")) && crng.gen_range(0..12) == 0 {
+            s["clog"] = json!(true);
+        }
+        let s = &s;
         match w.apply(s) {
             Some(l) => out.push(l.to_string()),
             None => {
@@ -685,6 +721,10 @@ fn run_random(b: usize, rng: &mut StdRng, len: usize) -> Vec<String> {
         let en = w.enabled(rng);
         // prefer delivering outcomes to issuing new requests
         let s = if rng.gen_bool(0.6) && en.len() > 16 { en[16..].choose(rng).unwrap().clone() } else { en.choose(rng).unwrap().clone() };
+        let mut s = s;
+        if matches!(s["a"].as_str(), Some("open_fail" | "dial_fail" | "established")) && rng.gen_range(0..12) == 0 {
+            s["clog"] = json!(true);
+        }
         if let Some(l) = w.apply(&s) {
             out.push(l.to_string());
         }
